@@ -125,6 +125,7 @@ def f32_inexact_bounds(case):
                     # the fuzzed bound b*(1+-eps) is a double
                     hits.append((f, k, 'bigint'))
                 elif (F.tdda_type(col['kind']) == 'int'
+                      and case.get('epsilon') not in (None, 0)
                       and p not in ('open', 'closed')
                       and isinstance(b, (int, float))
                       and (abs(b) > 2**53 or any(
